@@ -237,6 +237,17 @@ pub fn serde(rng: &mut Rng, n: usize, sink: &mut Sink) {
     use serde::de::value::{BorrowedBytesDeserializer, BorrowedStrDeserializer, BytesDeserializer, Error as VErr, StrDeserializer, StringDeserializer};
     let mut evals = 0u64;
     let mut texts: Vec<String> = vec!["".into(), "a".into(), "\"q\"\\\n\t\u{1}\u{7f}".into(), "é€𝄞".into(), "0123456789abcdef".into(), "0123456789abcdefg".into(), "\u{2028}\u{2029}".into()];
+    // code points that text-processing shortcuts single out (BOM, NUL, replacement character, non-characters, the
+    // surrogate neighbours, the last scalar, Unicode white space and line separators): alone, leading, trailing,
+    // embedded, short (inline) and long (heap)
+    for cp in ['\u{FEFF}', '\u{0}', '\u{FFFD}', '\u{FFFE}', '\u{FFFF}', '\u{D7FF}', '\u{E000}', '\u{10FFFF}', '\u{85}', '\u{A0}',
+               '\u{200B}', '\u{2028}', ' ', '\t', '\r', '\n', '"', '\\', '\u{7F}', '\u{80}'] {
+        texts.push(cp.to_string());
+        texts.push(format!("{cp}hi"));
+        texts.push(format!("hi{cp}"));
+        texts.push(format!("h{cp}{cp}i"));
+        texts.push(format!("{cp}a text longer than sixteen bytes{cp}"));
+    }
     for _ in 0..300 * n {
         texts.push(gn::rand_text(rng));
     }
